@@ -287,6 +287,9 @@ func (r *Run) Finish(c Coverage) {
 	for k, v := range r.Extra {
 		cov[k] = v
 	}
+	if _, ok := r.Extra["race_supplement"]; ok {
+		r.Assume = append(r.Assume, "supplement outside the enumeration: the same activities run free (no scheduler, no lock shim, all cores) under the Go race detector for a small grid of configurations (coverage.race_supplement); this SAMPLES interleavings and decides nothing, but every race report that involves repository code is reported as a violation of clause data-race")
+	}
 	if len(r.samples) == 0 {
 		cov["samples"] = []any{"(none recorded)"}
 	}
